@@ -89,6 +89,13 @@ def readerRead (r : Reader) (free : Int) : GoM (Bytes × Option String × Reader
       else pure (c, none, { r with chunks := rest })
     else pure (c.take free.toNat, none, { r with chunks := c.drop free.toNat :: rest })
 
+/-- An `io.Writer`: a state and what `Write(p)` answers and becomes — the count accepted, the error, the new state.
+Any function is allowed here; the `io.Writer` contract (`0 ≤ n ≤ len(p)`, `n < len(p) → err ≠ nil`) is a hypothesis
+of the theorems that need it. -/
+structure Writer (σ : Type) where
+  st : σ
+  write : σ → Bytes → Int × Option String × σ
+
 /-- `strings.IndexByte` -/
 def stringsIndexByte (s : Bytes) (c : UInt8) : Int :=
   let i := s.findIdx (· == c)
